@@ -194,6 +194,10 @@ func (g *grokGen) addPattern() *gen.Node {
 		// definition is back in force when the block ends
 		name = g.all[g.n("redefname", 0, len(g.all)-1)]
 		g.feat["pattern-name-redefined-or-shadowed"] = true
+	} else if g.n("shadow-default", 0, 5) == 0 {
+		// a name of the default table, redefined for this block only
+		name = globals[g.n("defname", 0, len(globals)-1)].regex
+		g.feat["default-pattern-name-redefined"] = true
 	}
 	var regex string
 	var ex []string
@@ -355,7 +359,7 @@ func TestGrokScopes(t *testing.T) {
 		for f := range g.feat {
 			labels = append(labels, "grok/"+f)
 		}
-		nt := g.feat["pattern-name-redefined-or-shadowed"] || g.feat["typed-capture"] || g.feat["non-string-subject"] || (g.feat["custom-pattern"] && (g.feat["branch"] || g.feat["loop"])) || g.feat["invisible-pattern"]
+		nt := g.feat["pattern-name-redefined-or-shadowed"] || g.feat["default-pattern-name-redefined"] || g.feat["typed-capture"] || g.feat["non-string-subject"] || (g.feat["custom-pattern"] && (g.feat["branch"] || g.feat["loop"])) || g.feat["invisible-pattern"]
 		v := judge(t, "grok", c, "grok:"+gen.ShapeAll(prog), nt, labels...)
 		if v != nil && nt {
 			evid.Sample(map[string]any{"script": c.Texts[c.Root], "fields": fmt.Sprint(c.Fields), "reference_fields": fmt.Sprint(v.Model.Pt.Fields())})
